@@ -21,5 +21,5 @@ DESIGN_FUNCS = [f"{D}:DesignNearSquare.find_design#nocap", f"{D}:DesignNearSquar
                 f"{D}:DesignRectangle.find_design#nocap", f"{D}:DesignRectangle.find_design#cap",
                 f"{M}:GHEManager.find_design#DesignNearSquare-nocap", f"{M}:GHEManager.find_design#DesignNearSquare-cap",
                 f"{M}:GHEManager.find_design#DesignRectangle-nocap", f"{M}:GHEManager.find_design#DesignRectangle-cap"]
-SEARCH_NATIVES = [f"{U}:sign", f"{U}:solve_root", f"{S}:Bisection1D.search#nocap", f"{S}:Bisection1D.search#cap",
+SEARCH_NATIVES = [f"{S}:RowWiseModifiedBisectionSearch.search", f"{U}:sign", f"{U}:solve_root", f"{S}:Bisection1D.search#nocap", f"{S}:Bisection1D.search#cap",
                   f"{S}:BisectionZD.search_successive#nocap"]
